@@ -19,6 +19,7 @@ CMT_TEXT = [
     "ZZCMT #]] not a closer",
     " ZZCMT \\x bad escape",
     "ZZCMT set(x 1) # nested",
+    "ZZCMT ls\u2028 still the comment ) \x0c ff",
 ]
 BRACKET_CMT = [
     "#[[ ZZCMT bracket ]]",
